@@ -124,12 +124,14 @@ func runOverlayTestOnce(rep map[string]interface{}, pkgDir, fileName, src, testN
 	out, err := cmd.CombinedOutput()
 	rep["replay_source"] = srcPath
 	rep["replay_cmd"] = strings.Join(cmd.Args, " ") + "   (in " + repoDir() + ")"
-	o := string(out)
+	full := string(out)
+	o := full
 	if len(o) > 4000 {
-		o = o[:4000]
+		// keep the beginning (the failing assertion or panic message) and the end (the verdict)
+		o = o[:3000] + "\n...\n" + o[len(o)-900:]
 	}
 	rep["replay_output"] = o
-	if err != nil && strings.Contains(o, "FAIL") && !strings.Contains(o, "[build failed]") {
+	if err != nil && strings.Contains(full, "FAIL") && !strings.Contains(full, "[build failed]") {
 		return true, "replay test " + testName + " fails on the real code"
 	}
 	return false, "replay test did not reproduce a failure"
